@@ -374,3 +374,308 @@ def c15_script(seed, proto):
         b.init(inst2)
         b.shutdown()
     return b.script, {"proto": proto, "seed": seed, "stage": stage}
+
+
+# ---------------------------------------------------------------------------------------------
+# C10 / C12: histories of status, timer, error-text and version frames after initialisation
+
+AT4_MODES = [0, 1, 2, 3, 4, 8, 9]
+AT5_POWERS = [0, 1, 2, 3, 5]
+AT5_FANS = [0, 1, 2, 3, 4, 5, 6, 9, 10, 11, 12, 13, 14]
+
+
+def ac_record(proto, n, rng, combo=None):
+    if proto == "at4":
+        power, mode, fan, flags = combo if combo else (rng.randrange(2), rng.choice(AT4_MODES), rng.randrange(7), rng.randrange(4))
+        return {"n": n, "power": power, "mode": mode, "fan": fan, "spill": flags & 1, "timer": flags >> 1,
+                "sp": 16 + rng.randrange(16), "temp_raw": 600 + rng.randrange(250), "err": rng.choice([0, 0, 0, 1, 0xFFFE])}
+    power, mode, fan, flags = combo if combo else (rng.choice(AT5_POWERS), rng.choice(AT4_MODES), rng.choice(AT5_FANS), rng.randrange(16))
+    return {"n": n, "power": power, "mode": mode, "fan": fan, "turbo": flags & 1, "bypass": (flags >> 1) & 1, "spill": (flags >> 2) & 1,
+            "timer": flags >> 3, "sp": 100 + 5 * rng.randrange(30), "temp_raw": 600 + rng.randrange(250), "err": rng.choice([0, 0, 0, 1, 0xABCD])}
+
+
+def zone_record(proto, z, rng):
+    st = z["status"]
+    sensor = st["sensor"] if rng.random() < 0.9 else 1 - st["sensor"]
+    if proto == "at4":
+        return {"n": z["n"], "power": rng.choice([0, 1, 3]), "method": rng.randrange(2), "pct": 5 * rng.randrange(21), "sp": 16 + rng.randrange(16),
+                "sensor": sensor, "temp_raw": (600 + rng.randrange(250)) if rng.random() < 0.8 else None, "turbo": rng.randrange(2),
+                "batt_low": rng.randrange(2), "spill": rng.randrange(2)}
+    return {"n": z["n"], "power": rng.choice([0, 1, 3]), "method": rng.randrange(2), "pct": 5 * rng.randrange(21),
+            "sp": rng.choice([0xFF, 80 + 5 * rng.randrange(34)]), "sensor": sensor,
+            "temp_raw": (600 + rng.randrange(250)) if rng.random() < 0.8 else 0x7FF, "batt_low": rng.randrange(2), "spill": rng.randrange(2)}
+
+
+def history_frame(inst, rng, combos=None):
+    """One console frame concerning some entities; returns (tag, frame, asks_error_for)."""
+    p = inst["proto"]
+    r = rng.random()
+    acs, zones = inst["acs"], inst["zones"]
+    if r < 0.40:
+        sel = [a for a in acs if rng.random() < 0.7] or [rng.choice(acs)]
+        recs = []
+        for a in sel:
+            if rng.random() < 0.25:
+                recs.append(a["status"])                                # unchanged repeat
+            else:
+                a["status"] = ac_record(p, a["n"], rng, combos.pop() if combos else None)
+                recs.append(a["status"])
+        if rng.random() < 0.15:
+            recs.append(ac_record(p, 3 if p == "at4" else 12, rng))      # unknown (or other) entity id
+        rng.shuffle(recs)
+        pl = C.at4_ac_status(recs) if p == "at4" else C.at5_ac_status(recs, rlen=rng.choice([8, 10]))
+        return "ac_status", C.from_console(p, 0x2D if p == "at4" else 0xC0, pl, pid=rng.randrange(256))
+    if r < 0.70 and zones:
+        sel = [z for z in zones if rng.random() < 0.6] or [rng.choice(zones)]
+        recs = []
+        for z in sel:
+            if rng.random() < 0.25:
+                recs.append(z["status"])
+            else:
+                z["status"] = zone_record(p, z, rng)
+                recs.append(z["status"])
+        if rng.random() < 0.15:
+            recs.append(dict(zone_record(p, zones[0], rng), n=15))
+        rng.shuffle(recs)
+        pl = C.at4_group_status(recs) if p == "at4" else C.at5_zone_status(recs, rlen=rng.choice([8, 9]))
+        return "zone_status", C.from_console(p, 0x2B if p == "at4" else 0xC0, pl, pid=rng.randrange(256))
+    if r < 0.82:
+        for a in acs:
+            if rng.random() < 0.6:
+                a["timers"] = (rng.choice([None, (rng.randrange(24), rng.randrange(60))]), rng.choice([None, (rng.randrange(24), rng.randrange(60))]))
+        if p == "at4":
+            tim = [a["timers"] for a in acs] + [(None, None)] * (4 - len(acs))
+            return "timer_status", C.from_console(p, 0x37, C.at4_timer_status(tim), pid=rng.randrange(256))
+        sel = [a for a in acs if rng.random() < 0.8] or [acs[0]]
+        return "timer_status", C.from_console(p, 0xC0, C.at5_timer_status([(a["n"], a["timers"][0], a["timers"][1]) for a in sel]), pid=rng.randrange(256))
+    if r < 0.92:
+        a = rng.choice(acs)
+        text = rng.choice([b"ER: FFFE", b"", b"E1", "Störung".encode()])
+        return "error_info", C.from_console(p, 0x1F, C.error_info(a["n"], text), pid=rng.randrange(256))
+    inst["version"] = (rng.random() < 0.5, rng.choice([b"1.3.3", b"1.3.4|1.3.3", b"2.0"]) if p == "at4" else rng.choice([b"1.0.1", b"1.0.2,1.0.1"]))
+    return "version", C.from_console(p, 0x1F, C.version(*inst["version"]), pid=rng.randrange(256))
+
+
+def c10_script(seed, proto, combos=None, subscribers=False, raising=False):
+    rng = random.Random(seed)
+    inst = installation(proto, rng, n_acs=rng.randrange(1, 4), n_zones=rng.randrange(1, 7))
+    b = ClientBuilder(proto, rng)
+    b.op(op="mark", tag="strict")
+    b.preamble()
+    b.init(inst)
+    subs = add_subscribers(b, inst, rng, raising=raising) if subscribers else []
+    n = rng.randrange(10, 40) if not combos else len(combos) + 5
+    for _ in range(n):
+        if combos is not None and not combos:
+            break
+        tag, fr = history_frame(inst, rng, combos)
+        if rng.random() < 0.2:
+            cut = rng.randrange(1, len(fr))
+            b.op(op="feed", b=fr[:cut], tag=tag)
+            b.op(op="step", k=1)
+            b.op(op="feed", b=fr[cut:], tag=tag)
+        else:
+            b.op(op="feed", b=fr, tag=tag)
+        b.op(op="quiesce")
+        b.op(op="snapshot", tag=tag)
+        if subscribers and rng.random() < 0.25:
+            # subscribe / unsubscribe / double-subscribe anywhere in the history
+            kind, tgt, who = rng.choice([("ac", f"ac:{a['n']}", f"A{a['n']}") for a in inst["acs"]] +
+                                        [("ac_state", f"ac:{a['n']}", f"S{a['n']}") for a in inst["acs"]] +
+                                        [("zone", f"zone:{z['n']}", f"Z{z['n']}") for z in inst["zones"]] +
+                                        [("airtouch", "airtouch", "T")])
+            if rng.random() < 0.5:
+                b.op(op="sub", who=who, kind=kind, target=tgt)
+            else:
+                b.op(op="unsub", who=who, kind=kind, target=tgt)
+    b.shutdown()
+    return b.script, {"proto": proto, "seed": seed, "subscribers": subscribers, "raising": raising}
+
+
+# ---------------------------------------------------------------------------------------------
+# C04 / C11: public control calls
+
+def E(enum, name):
+    return {"enum": enum, "name": name}
+
+
+AC_POWER = ["TOGGLE", "TURN_OFF", "TURN_ON", "SET_TO_AWAY", "SET_TO_SLEEP"]
+AC_MODES = ["AUTO", "HEAT", "DRY", "FAN", "COOL"]
+AC_FANS = ["AUTO", "QUIET", "LOW", "MEDIUM", "HIGH", "POWERFUL", "TURBO", "INTELLIGENT_AUTO"]
+ZONE_POWER = ["OFF", "ON", "TURBO"]
+
+
+def command_calls(inst, rng, n):
+    """n public control calls (target, method, args, kwargs) over the whole argument domains."""
+    calls = []
+    acs, zones = inst["acs"], inst["zones"]
+    for _ in range(n):
+        r = rng.random()
+        a = rng.choice(acs)
+        tgt = f"ac:{a['n']}"
+        if r < 0.10:
+            calls.append((tgt, "set_power", [E("AcPowerControl", rng.choice(AC_POWER))], None))
+        elif r < 0.22:
+            kw = {"power_on": True} if rng.random() < 0.3 else None
+            calls.append((tgt, "set_mode", [E("AcMode", rng.choice(AC_MODES))], kw))
+        elif r < 0.34:
+            calls.append((tgt, "set_fan_speed", [E("AcFanSpeed", rng.choice(AC_FANS))], None))
+        elif r < 0.52:
+            # 0.05 degC grid from min-3 to max+3 (twentieths), incl. ties
+            calls.append((tgt, "set_target_temperature", [{"twentieths": rng.randrange(12 * 20, 36 * 20)}], None))
+        elif r < 0.60:
+            tt = E("AcTimerType", rng.choice(["ON_TIMER", "OFF_TIMER"]))
+            if rng.random() < 0.5:
+                calls.append((tgt, "set_quick_timer", [tt, {"time": [rng.randrange(24), rng.randrange(60)]}], None))
+            else:
+                calls.append((tgt, "set_quick_timer", [tt, {"seconds": rng.choice([0, 59, 60, 3599, 3600, 5400, 86399, 90000, rng.randrange(0, 200000)])}], None))
+        elif r < 0.65:
+            calls.append((tgt, "clear_quick_timer", [E("AcTimerType", rng.choice(["ON_TIMER", "OFF_TIMER"]))], None))
+        elif r < 0.68:
+            calls.append(("airtouch", "check_for_updates", [], None))
+        elif zones:
+            z = rng.choice(zones)
+            zt = f"zone:{z['n']}"
+            r2 = rng.random()
+            if r2 < 0.3:
+                calls.append((zt, "set_power", [E("ZonePowerState", rng.choice(ZONE_POWER))], None))
+            elif r2 < 0.65:
+                calls.append((zt, "set_target_temperature", [{"twentieths": rng.randrange(10 * 20, 36 * 20)}], None))
+            else:
+                calls.append((zt, "set_damper_percentage", [rng.randrange(-5, 106)], None))
+    return calls
+
+
+def c11_script(seed, proto, bitmap=None):
+    rng = random.Random(seed)
+    inst = installation(proto, rng, n_acs=rng.randrange(1, 3), n_zones=rng.randrange(1, 5))
+    for a in inst["acs"]:
+        modes, fans = bitmap if bitmap else (rng.randrange(32), rng.randrange(128 if proto == "at4" else 256))
+        a["modes"], a["fans"] = modes, fans
+    b = ClientBuilder(proto, rng)
+    b.op(op="mark", tag="strict")
+    b.preamble()
+    b.init(inst)
+    for tgt, meth, args, kw in command_calls(inst, rng, rng.randrange(25, 45)):
+        b.call(tgt, meth, args, kw)
+        b.op(op="quiesce")
+        if rng.random() < 0.1:       # the console reports new state (mode -> limits, timers, sensor)
+            tag, fr = history_frame(inst, rng)
+            b.op(op="feed", b=fr, tag=tag)
+            b.op(op="quiesce")
+    b.shutdown()
+    return b.script, {"proto": proto, "seed": seed, "bitmap": bitmap}
+
+
+# ---------------------------------------------------------------------------------------------
+# C19: the same abstract installation and history on both generations
+
+def _to_at5(inst4):
+    """The AT5 rendering of an installation described in terms both generations can express."""
+    import copy
+    i5 = copy.deepcopy(inst4)
+    i5["proto"] = "at5"
+    for a in i5["acs"]:
+        a["min_cool"] = a["min_heat"] = a["min"]
+        a["max_cool"] = a["max_heat"] = a["max"]
+        st = a["status"]
+        st["sp"] = st["sp"] * 10 - 100
+    for z in i5["zones"]:
+        st = z["status"]
+        st["sp"] = (st["sp"] * 10 - 100) if st["sensor"] else 0xFF
+        st["temp_raw"] = st["temp_raw"] if (st["sensor"] and st["temp_raw"] is not None) else 0x7FF
+    v = i5["version"]
+    i5["version"] = (v[0], v[1].replace(b"|", b","))
+    return i5
+
+
+def _common_installation(rng):
+    inst = installation("at4", rng, n_acs=rng.randrange(1, 3), n_zones=rng.randrange(1, 5))
+    for a in inst["acs"]:
+        a["fans"] &= 0x7F
+        a["status"]["sp"] = 18 + rng.randrange(10)
+        a["status"]["mode"] = rng.choice(AT4_MODES)
+    for z in inst["zones"]:
+        st = z["status"]
+        st["turbo"] = 1
+        st["sp"] = 18 + rng.randrange(10)
+        if not st["sensor"]:
+            st["temp_raw"] = None
+            st["method"] = 0
+        elif st["temp_raw"] is None:
+            st["temp_raw"] = 700
+        z["name"] = z["name"][:8]
+    return inst
+
+
+def c19_pair(seed):
+    rng = random.Random(seed)
+    inst4 = _common_installation(rng)
+    builders = {}
+    insts = {"at4": inst4, "at5": _to_at5(inst4)}
+    for p in ("at4", "at5"):
+        b = ClientBuilder(p, random.Random(seed))
+        b.op(op="mark", tag="strict")
+        b.preamble()
+        b.init(insts[p])
+        builders[p] = b
+    steps = []
+    for _ in range(rng.randrange(8, 20)):
+        if rng.random() < 0.45:
+            # a status change expressible in both generations
+            a = rng.choice(inst4["acs"])
+            if rng.random() < 0.5 or not inst4["zones"]:
+                a["status"] = dict(a["status"], power=rng.randrange(2), mode=rng.choice(AT4_MODES), fan=rng.randrange(7),
+                                   sp=18 + rng.randrange(10), temp_raw=600 + rng.randrange(250), spill=rng.randrange(2), timer=rng.randrange(2))
+                f4 = C.from_console("at4", 0x2D, C.at4_ac_status([a["status"]]))
+                st5 = dict(a["status"], sp=a["status"]["sp"] * 10 - 100)
+                f5 = C.from_console("at5", 0xC0, C.at5_ac_status([st5]))
+            else:
+                z = rng.choice(inst4["zones"])
+                st = z["status"]
+                st = dict(st, power=rng.choice([0, 1, 3]), pct=5 * rng.randrange(21), sp=18 + rng.randrange(10),
+                          temp_raw=(600 + rng.randrange(250)) if st["sensor"] else None, batt_low=rng.randrange(2), spill=rng.randrange(2))
+                z["status"] = st
+                f4 = C.from_console("at4", 0x2B, C.at4_group_status([st]))
+                st5 = dict(st, sp=(st["sp"] * 10 - 100) if st["sensor"] else 0xFF, temp_raw=st["temp_raw"] if st["sensor"] else 0x7FF)
+                f5 = C.from_console("at5", 0xC0, C.at5_zone_status([st5]))
+            for p, f in (("at4", f4), ("at5", f5)):
+                builders[p].op(op="feed", b=f, tag="status")
+                builders[p].op(op="quiesce")
+                builders[p].op(op="snapshot", tag="pair")
+            steps.append("status")
+        else:
+            r = rng.random()
+            a = rng.choice(inst4["acs"])
+            tgt = f"ac:{a['n']}"
+            if r < 0.15:
+                call = (tgt, "set_power", [E("AcPowerControl", rng.choice(["TOGGLE", "TURN_OFF", "TURN_ON"]))], None)
+            elif r < 0.35:
+                call = (tgt, "set_mode", [E("AcMode", rng.choice(AC_MODES))], {"power_on": True} if rng.random() < 0.3 else None)
+            elif r < 0.5:
+                call = (tgt, "set_fan_speed", [E("AcFanSpeed", rng.choice(AC_FANS[:7]))], None)
+            elif r < 0.65:
+                call = (tgt, "set_target_temperature", [{"twentieths": 20 * rng.randrange(12, 36)}], None)
+            elif r < 0.72:
+                call = (tgt, "set_quick_timer", [E("AcTimerType", rng.choice(["ON_TIMER", "OFF_TIMER"])), {"time": [rng.randrange(24), rng.randrange(60)]}], None)
+            elif r < 0.76:
+                call = (tgt, "clear_quick_timer", [E("AcTimerType", rng.choice(["ON_TIMER", "OFF_TIMER"]))], None)
+            elif inst4["zones"]:
+                z = rng.choice(inst4["zones"])
+                zt = f"zone:{z['n']}"
+                r2 = rng.random()
+                if r2 < 0.3:
+                    call = (zt, "set_power", [E("ZonePowerState", rng.choice(ZONE_POWER))], None)
+                elif r2 < 0.65:
+                    call = (zt, "set_target_temperature", [{"twentieths": 20 * rng.randrange(14, 32)}], None)
+                else:
+                    call = (zt, "set_damper_percentage", [rng.randrange(-5, 106)], None)
+            else:
+                call = ("airtouch", "check_for_updates", [], None)
+            for p in ("at4", "at5"):
+                builders[p].call(*call)
+                builders[p].op(op="quiesce")
+            steps.append("call")
+    for p in ("at4", "at5"):
+        builders[p].shutdown()
+    return builders["at4"].script, builders["at5"].script, {"seed": seed, "steps": steps}
